@@ -1574,8 +1574,10 @@ func (b *builder) switchStmt(fn *Function, s *ast.SwitchStmt, label *lblock) {
 		b.stmt(fn, s.Init)
 	}
 
-	entry := fn.currentBlock
+	// Evaluating the tag may itself create control flow (a && b). The switch
+	// dispatches from the block in which the tag's value is available.
 	tag := b.expr(fn, s.Tag)
+	entry := fn.currentBlock
 
 	heads := make([]*BasicBlock, 0, len(s.Body.List))
 	bodies := make([]*BasicBlock, len(s.Body.List))
